@@ -44,6 +44,15 @@ CLAIMED = {
             "for guarded operands, numeric results, or computed (non-constant) index expressions.",
             "guard-dominance (control-dependence) check on partial-call operands, arity-table vs index agreement, path typestate on the arity wrapper",
             "DESIGN.md §4 C04"),
+    "C16": ("Structural necessary conditions of safe, stable definition migration: the version registry (distinct versions, "
+            "function named for its version, highest == CurrentSpecVersion) and the shape of migrate() (applies exactly (from,to], "
+            "ascending, the function registered for the stamped version, stamps the applied version, returns its input untouched "
+            "when nothing applies); hostile-JSON panic freedom clauses over migrations/legacy/definition/jsonpath: unchecked type "
+            "assertions, dereferences of optional JSON pointers, constant-offset string slicing, writes into possibly-nil JSON maps, "
+            "explicit panics - each guarded on every path or listed with its reason. Does not decide that migrated definitions load, "
+            "graph preservation, idempotence as a value-level fact, or equivalence of rewritten templates.",
+            "registry/table agreement (AST constants), SSA shape check of migrate(), guard-dominance (control dependence) for nil/length/type tests, interprocedural nullable-map analysis",
+            "DESIGN.md §4 C16"),
 }
 
 NOT_APPLICABLE = {}
